@@ -642,6 +642,18 @@ def m_set_remove(ex, d, args, kwargs, st, sink, node):
             ex.raise_(s2, sink, "KeyError", origin="set.remove")
 
 
+def _no_kwargs(name, fn):
+    def guarded(ex, args, kwargs, st, sink, node):
+        if kwargs:
+            raise Unsupported(f"{name} called with keyword arguments its model does not cover")
+        return fn(ex, args, kwargs, st, sink, node)
+    return guarded
+
+
+for _n in ("builtins.set", "struct.pack", "struct.unpack", "struct.calcsize", "builtins.len", "builtins.isinstance", "builtins.int", "builtins.str", "builtins.repr", "builtins.callable", "builtins.bool"):
+    EXTERNALS[_n] = _no_kwargs(_n, EXTERNALS[_n])
+
+
 # the number of positional arguments each model understands: a call with more (str.find(sub, start), list.pop(i, ...)) is outside the model
 METHOD_MAX_ARGS = {("seq", "append"): 1, ("seq", "pop"): 1, ("seq", "remove"): 1, ("str", "find"): 1, ("bytes", "find"): 1, ("str", "startswith"): 1, ("bytes", "startswith"): 1,
                    ("str", "endswith"): 1, ("str", "encode"): 2, ("bytes", "decode"): 2, ("str", "rstrip"): 1, ("bytes", "join"): 1, ("str", "join"): 1, ("map", "get"): 2, ("map", "pop"): 2,
